@@ -41,6 +41,8 @@ def gen_cases(tier, seed):
         dev = zoo.gen_device(rng, n_terminals=nt, n_holes=nh, probes=int([0, 2, 3][k % 3]) , size="small", film_kind=None if nt == 0 else "box")
         dev["layer"]["conductivity"] = [None, 3.5][k % 2]
         dev["length_units"] = ["um", "nm", "mm"][(k // 2) % 3]  # (a label for the round trip; the numbers are not rescaled)
+        if k % 2:
+            dev["film"]["name"] = ["slab", "Nb strip", "film_1"][(k // 2) % 3]  # the film polygon has a name of the user's choosing
         cases.append({"kind": "device", "device": dev, "solve": bool(k % 4 == 0), "seed": int(rng.integers(1 << 30)), "cost": 4})
     ns = 14 if tier == "quick" else 150
     for k in range(ns):
@@ -50,6 +52,8 @@ def gen_cases(tier, seed):
         if not o["adaptive"]:
             o["auto_dt"] = {"steps": 30, "frac": 0.3}
         o["save_every"] = int([1, 5, 10][k % 3])
+        if k % 3 == 1:
+            dev["film"]["name"] = ["slab", "Nb strip"][(k // 3) % 2]
         # Optional / defaulted fields: None-valued and set
         o["terminal_psi"] = ["none", 0.0, 0.5, [0.3, 0.4], "none"][k % 5]
         o["output"] = ["file", "temp"][k % 2]
